@@ -98,56 +98,66 @@ impl<K: Ord, V> BTreeMap<K, V> {
     pub fn new() -> Self {
         Self { len: 0, items: std::array::from_fn(|_| None) }
     }
-    fn pos<Q: ?Sized + Ord>(&self, key: &Q) -> Result<usize, usize>
-    where
-        K: Borrow<Q>,
-    {
+    // Every slot access below uses a loop counter as index (a constant in each unwound
+    // iteration), never an index computed elsewhere: a symbolic index into `items` makes CBMC
+    // consider the empty slots too, and everything read through it (lengths of `Vec` keys, for
+    // instance) stops being a constant for the solver.
+    pub fn insert(&mut self, key: K, value: V) -> Option<V> {
         let mut i = 0;
-        while i < self.len {
-            let k: &Q = self.items[i].as_ref().unwrap().0.borrow();
-            if k == key {
-                return Ok(i);
-            }
-            if k > key {
-                return Err(i);
+        while i < CAP {
+            if i < self.len {
+                let ord = self.items[i].as_ref().unwrap().0.cmp(&key);
+                if ord == std::cmp::Ordering::Equal {
+                    return Some(std::mem::replace(&mut self.items[i].as_mut().unwrap().1, value));
+                }
+                if ord == std::cmp::Ordering::Greater {
+                    // insert before i: shift [i, len) one to the right
+                    assert!(self.len < CAP, "VERIF-MODEL-BOUND: BTreeMap model capacity exceeded");
+                    let mut j = CAP - 1;
+                    while j > i {
+                        if j <= self.len {
+                            self.items[j] = self.items[j - 1].take();
+                        }
+                        j -= 1;
+                    }
+                    self.items[i] = Some((key, value));
+                    self.len += 1;
+                    return None;
+                }
+            } else {
+                // i == len: append
+                self.items[i] = Some((key, value));
+                self.len = i + 1;
+                return None;
             }
             i += 1;
         }
-        Err(i)
-    }
-    pub fn insert(&mut self, key: K, value: V) -> Option<V> {
-        match self.pos(&key) {
-            Ok(i) => Some(std::mem::replace(&mut self.items[i].as_mut().unwrap().1, value)),
-            Err(i) => {
-                assert!(self.len < CAP, "VERIF-MODEL-BOUND: BTreeMap model capacity exceeded");
-                let mut j = self.len;
-                while j > i {
-                    self.items[j] = self.items[j - 1].take();
-                    j -= 1;
-                }
-                self.items[i] = Some((key, value));
-                self.len += 1;
-                None
-            }
-        }
+        panic!("VERIF-MODEL-BOUND: BTreeMap model capacity exceeded");
     }
     pub fn remove<Q: ?Sized + Ord>(&mut self, key: &Q) -> Option<V>
     where
         K: Borrow<Q>,
     {
-        match self.pos(key) {
-            Ok(i) => {
-                let out = self.items[i].take();
-                let mut j = i;
-                while j + 1 < self.len {
-                    self.items[j] = self.items[j + 1].take();
-                    j += 1;
+        let mut out: Option<V> = None;
+        let mut found = false;
+        let mut i = 0;
+        while i < CAP {
+            if i < self.len {
+                if !found {
+                    if self.items[i].as_ref().unwrap().0.borrow() == key {
+                        out = self.items[i].take().map(|kv| kv.1);
+                        found = true;
+                    }
+                } else {
+                    self.items[i - 1] = self.items[i].take();
                 }
-                self.len -= 1;
-                out.map(|kv| kv.1)
             }
-            Err(_) => None,
+            i += 1;
         }
+        if found {
+            self.len -= 1;
+        }
+        out
     }
     pub fn len(&self) -> usize {
         self.len
@@ -159,29 +169,42 @@ impl<K: Ord, V> BTreeMap<K, V> {
     where
         K: Borrow<Q>,
     {
-        match self.pos(key) {
-            Ok(i) => Some(&self.items[i].as_ref().unwrap().1),
-            Err(_) => None,
+        let mut i = 0;
+        while i < CAP {
+            if i < self.len {
+                let kv = self.items[i].as_ref().unwrap();
+                if kv.0.borrow() == key {
+                    return Some(&kv.1);
+                }
+            }
+            i += 1;
         }
+        None
     }
     pub fn get_mut<Q: ?Sized + Ord>(&mut self, key: &Q) -> Option<&mut V>
     where
         K: Borrow<Q>,
     {
-        match self.pos(key) {
-            Ok(i) => Some(&mut self.items[i].as_mut().unwrap().1),
-            Err(_) => None,
+        let mut i = 0;
+        while i < CAP {
+            if i < self.len {
+                if self.items[i].as_ref().unwrap().0.borrow() == key {
+                    return Some(&mut self.items[i].as_mut().unwrap().1);
+                }
+            }
+            i += 1;
         }
+        None
     }
     pub fn contains_key<Q: ?Sized + Ord>(&self, key: &Q) -> bool
     where
         K: Borrow<Q>,
     {
-        self.pos(key).is_ok()
+        self.get(key).is_some()
     }
     pub fn clear(&mut self) {
         let mut i = 0;
-        while i < self.len {
+        while i < CAP {
             self.items[i] = None;
             i += 1;
         }
@@ -225,13 +248,24 @@ impl<K: Ord, V> BTreeMap<K, V> {
         }
     }
     pub fn retain<F: FnMut(&K, &mut V) -> bool>(&mut self, mut f: F) {
+        // order-preserving compaction; r is a loop counter, the write index w is kept exact by
+        // scanning for it with a counter as well
         let mut w = 0;
         let mut r = 0;
-        while r < self.len {
-            let mut kv = self.items[r].take().unwrap();
-            if f(&kv.0, &mut kv.1) {
-                self.items[w] = Some(kv);
-                w += 1;
+        while r < CAP {
+            if r < self.len {
+                let mut kv = self.items[r].take().unwrap();
+                if f(&kv.0, &mut kv.1) {
+                    let mut j = 0;
+                    let mut slot = Some(kv);
+                    while j <= r {
+                        if j == w {
+                            self.items[j] = slot.take();
+                        }
+                        j += 1;
+                    }
+                    w += 1;
+                }
             }
             r += 1;
         }
@@ -242,10 +276,15 @@ impl<K: Ord, V> BTreeMap<K, V> {
     where
         K: Borrow<Q>,
     {
-        let at = match self.pos(key) {
-            Ok(i) => i,
-            Err(i) => i,
-        };
+        // number of keys < key
+        let mut at = 0;
+        let mut i = 0;
+        while i < CAP {
+            if i < self.len && self.items[i].as_ref().unwrap().0.borrow() < key {
+                at = i + 1;
+            }
+            i += 1;
+        }
         let mut out = Self::new();
         let mut r = at;
         while r < self.len {
@@ -286,6 +325,52 @@ impl<K: Ord, V> BTreeMap<K, V> {
             hi -= 1;
         }
         Iter { m: self, lo, hi }
+    }
+}
+
+pub struct BIntoIter<K, V> {
+    m: BTreeMap<K, V>,
+    i: usize,
+}
+impl<K, V> Iterator for BIntoIter<K, V> {
+    type Item = (K, V);
+    fn next(&mut self) -> Option<(K, V)> {
+        if self.i < self.m.len {
+            let i = self.i;
+            self.i += 1;
+            self.m.items[i].take()
+        } else {
+            None
+        }
+    }
+}
+pub struct BIntoValues<K, V>(BIntoIter<K, V>);
+impl<K, V> Iterator for BIntoValues<K, V> {
+    type Item = V;
+    fn next(&mut self) -> Option<V> {
+        self.0.next().map(|kv| kv.1)
+    }
+}
+pub struct BIntoKeys<K, V>(BIntoIter<K, V>);
+impl<K, V> Iterator for BIntoKeys<K, V> {
+    type Item = K;
+    fn next(&mut self) -> Option<K> {
+        self.0.next().map(|kv| kv.0)
+    }
+}
+impl<K: Ord, V> BTreeMap<K, V> {
+    pub fn into_values(self) -> BIntoValues<K, V> {
+        BIntoValues(BIntoIter { m: self, i: 0 })
+    }
+    pub fn into_keys(self) -> BIntoKeys<K, V> {
+        BIntoKeys(BIntoIter { m: self, i: 0 })
+    }
+}
+impl<K: Ord, V> IntoIterator for BTreeMap<K, V> {
+    type Item = (K, V);
+    type IntoIter = BIntoIter<K, V>;
+    fn into_iter(self) -> Self::IntoIter {
+        BIntoIter { m: self, i: 0 }
     }
 }
 
